@@ -429,6 +429,16 @@ func (c *Ctx) mustWrite0(fn *ssa.Function, assume func(*ssa.If) int, stack map[*
 			switch x := in.(type) {
 			case *ssa.Store:
 				k := writeKey(fn, x.Addr, "")
+				// a store to one element counts as "all elements written" only when it sits in a
+				// loop over the whole, unsliced container (for i := range X { X[i] = … })
+				if ia, isIA := x.Addr.(*ssa.IndexAddr); isIA && strings.HasSuffix(k, "[*]") && !fullRangeStore(fi, ia) {
+					continue
+				}
+				if fa, isFA := x.Addr.(*ssa.FieldAddr); isFA {
+					if ia, isIA := fa.X.(*ssa.IndexAddr); isIA && strings.Contains(k, "[*]") && !fullRangeStore(fi, ia) {
+						continue
+					}
+				}
 				g[k] = true
 				// storing a whole struct writes every nested field
 				if st, ok := x.Val.Type().Underlying().(*types.Struct); ok && k != "local" {
@@ -437,8 +447,11 @@ func (c *Ctx) mustWrite0(fn *ssa.Function, assume func(*ssa.If) int, stack map[*
 			case ssa.CallInstruction:
 				com := x.Common()
 				if bi, ok := com.Value.(*ssa.Builtin); ok {
-					if bi.Name() == "copy" || bi.Name() == "clear" {
-						g[writeKey(fn, com.Args[0], "[*]")] = true
+					if bi.Name() == "clear" {
+						// clear(X) writes all elements only for the unsliced container
+						if _, isSl := com.Args[0].(*ssa.Slice); !isSl {
+							g[writeKey(fn, com.Args[0], "[*]")] = true
+						}
 					}
 					continue
 				}
@@ -812,4 +825,70 @@ func (c *Ctx) calleeAssume(fi *FuncInfo, call ssa.CallInstruction, callee *ssa.F
 		}
 		return pol
 	}
+}
+
+
+// fullRangeStore: ia indexes an unsliced container value X with the index of a
+// loop that runs over all of X (range form: phi from −1, index phi+1, bound
+// len(X); or counting form from 0 to len(X)).
+func fullRangeStore(fi *FuncInfo, ia *ssa.IndexAddr) bool {
+	if _, isSl := ia.X.(*ssa.Slice); isSl {
+		return false
+	}
+	l := fi.loopOf(ia.Block())
+	for ; l != nil; l = outerOf(fi, l) {
+		iff, ok := l.Header.Instrs[len(l.Header.Instrs)-1].(*ssa.If)
+		if !ok {
+			continue
+		}
+		stay := l.Blocks[l.Header.Succs[0]]
+		fs := fi.factsOf([]Cond{{iff.Cond, stay}})
+		if len(fs) != 1 || fs[0].Op != LE {
+			continue
+		}
+		idx := fi.lin(ia.Index)
+		lx := fi.lenOf(ia.X)
+		for _, in := range l.Header.Instrs {
+			ph, isPhi := in.(*ssa.Phi)
+			if !isPhi || !isIntType(ph.Type()) {
+				continue
+			}
+			var initL Lin
+			step := false
+			for k, e := range ph.Edges {
+				if l.Blocks[ph.Block().Preds[k]] {
+					step = fi.lin(e).eq(fi.lin(ph).addc(1))
+				} else {
+					initL = fi.lin(e)
+				}
+			}
+			if !step {
+				continue
+			}
+			p := fi.lin(ph)
+			// range form
+			if idx.eq(p.addc(1)) && initL.isConst() && initL.c == -1 && fs[0].L.eq(p.addc(2).sub(lx)) {
+				return true
+			}
+			// counting form
+			if idx.eq(p) && initL.isConst() && initL.c == 0 && fs[0].L.eq(p.addc(1).sub(lx)) {
+				return true
+			}
+		}
+	}
+	return false
+}
+
+// outerOf: the smallest loop strictly containing l.
+func outerOf(fi *FuncInfo, l *Loop) *Loop {
+	var best *Loop
+	for _, o := range fi.loops {
+		if o == l || !o.Blocks[l.Header] || len(o.Blocks) <= len(l.Blocks) {
+			continue
+		}
+		if best == nil || len(o.Blocks) < len(best.Blocks) {
+			best = o
+		}
+	}
+	return best
 }
